@@ -239,11 +239,14 @@ func (g *gen) dml(m *mstate) string {
 			parts = append(parts, "pk@1")
 		}
 		for i := 0; i < nc; i++ {
+			if second && i == 0 {
+				// the column declared before the key is always `c0 int`: a re-created table then has the
+				// same key column tag (a changed primary-key set is outside the properties' quantifier)
+				parts = append(parts, "c0:int")
+				continue
+			}
 			g.usedCols[n]++
 			ty := hx.Pick(g.r, []string{"int", "str"})
-			if second && i == 0 {
-				ty = "int"
-			}
 			parts = append(parts, fmt.Sprintf("c%d:%s", g.usedCols[n], ty))
 		}
 		return strings.Join(parts, " ")
@@ -348,7 +351,12 @@ func (g *gen) pattern(m *mstate) bool {
 					} else {
 						g.pkSecond[n] = false
 					}
-					g.pending = append(g.pending, fmt.Sprintf("create %s %sc%d:int", n, pk, g.usedCols[n]), fmt.Sprintf("ins %s 1 i1", n))
+					if pk != "" {
+						pk = "pk@1 c0:int "
+						g.pending = append(g.pending, fmt.Sprintf("create %s %sc%d:int", n, pk, g.usedCols[n]), fmt.Sprintf("ins %s 1 i1 i1", n))
+					} else {
+						g.pending = append(g.pending, fmt.Sprintf("create %s c%d:int", n, g.usedCols[n]), fmt.Sprintf("ins %s 1 i1", n))
+					}
 					break
 				}
 			}
@@ -605,6 +613,17 @@ func (rn *runner) runProgram(g *gen, replay []string, steps int) {
 			}
 			e.Rep.Disagree(kc, ires+" ["+out.class+"] "+out.msg, res, "result class")
 			return
+		}
+		// a commit that becomes reachable *again* (e.g. reset to a tag after a soft reset away from it)
+		// is already mapped
+		{
+			var really []int
+			for _, id := range fresh {
+				if _, known := im.hashes[id]; !known {
+					really = append(really, id)
+				}
+			}
+			fresh = really
 		}
 		if err := im.learn(fresh); err != nil {
 			e.Rep.Disagree(kc, err.Error(), parts[0], "fresh commits")
